@@ -401,6 +401,14 @@ func (g *G) scenario() {
 					}
 					continue
 				}
+				if len(b) >= 115 && !isA && sp.Field == engine.Ready {
+					// ready (= offered for mining once asked) only if the progress recorded in map B says the table is complete
+					if cp := binary.LittleEndian.Uint64(b[42:50]); cp < uint64(1)<<uint(bl-1) {
+						msg := fmt.Sprintf("space %s is indexed as ready although %s records checkpoint %d of %d", sp.SID, filepath.Base(p), cp, uint64(1)<<uint(bl-1))
+						h.Fail("C10:ready-with-incomplete-table", msg)
+						h.Fail("C11:ready-with-incomplete-table", msg)
+					}
+				}
 				if len(b) >= 115 {
 					hbl := int(b[40])
 					pkOK := hex.EncodeToString(b[82:115]) == hexKey(key, false)
